@@ -473,6 +473,11 @@ def run(ctx):
             if undocumented:
                 ctx.note("%s: columns %s are produced but not listed in the docstring (information only)" % (fn_name, undocumented))
             samples.append({"frame": fn_name, "columns": cols, "tuple_layout": layouts[cast]})
+    # element 0 of the observation arrays is read live from the book's cumulative counter: it is "the volume traded in the last
+    # step" only because every step resets that counter first, unconditionally (C11's rule for Env, which StepEnv wraps)
+    from . import c11
+    from .c06 import _Prefixed
+    c11.step_rules(_Prefixed(ctx, "last-step-volume-"), m, (("Env", m.env_fn, "order_book"),))
     ctx.extra["programs"] = programs
     ctx.extra["disagreements_checked"] = sum(1 for o in ctx.obligations if o["rule"] in ("layout", "dict", "columns"))
     ctx.extra["samples"] = samples
